@@ -145,7 +145,7 @@ def call (o : Oracle) (st : State) (L : Str) : State × List Str :=
     if o.looks L then
       ({ st with memo := dset st.memo L (.own [L]) }, [L])
     else
-      -- `for (rx, T) in self.compiled_labels: if rx.match(L): result.append(rx.sub(T, L))`
+      -- `for (rx, T) in self.compiled_labels: m = rx.fullmatch(L); if m: result.append(m.expand(T))`
       let exps := st.compiled.filterMap fun r => o.full r L
       match dget st.literal L with
       | some base =>
